@@ -625,8 +625,19 @@ def check_copies(rep: Report):
     b = ast.dump(ast.parse(textwrap.dedent(inspect.getsource(text_wer._edit_distance))))
     rep.case(nontrivial_key=("edit-distance-copies",))
     if a != b:
-        rep.broke("model:editDistanceHelper", "the two copies of _edit_distance (helper.py, word_error_rate.py) are no longer the same "
-                  "program; the Lean model uses one definition for both", {"kind": "copies"})
+        # the texts differ (one copy was refactored): the Lean model still uses one definition for both, so the two
+        # copies must at least compute the same function — compared on every pair of word lists of length ≤ 4 over
+        # a 3-letter vocabulary (14 641 pairs); each copy is also compared with the model through its public entry.
+        import itertools
+        words = [list(w) for n in range(5) for w in itertools.product("abc", repeat=n)]
+        rep.count("edit-distance-copies:texts-differ")
+        for x in words:
+            for y in words:
+                ra, rb = text_helper._edit_distance(x, y), text_wer._edit_distance(x, y)
+                if ra != rb:
+                    rep.broke("model:editDistanceHelper", f"the two copies of _edit_distance (helper.py, word_error_rate.py) differ on {x} / {y}: "
+                              f"{ra} vs {rb}; the Lean model uses one definition for both", {"kind": "copies", "x": x, "y": y})
+                    return
 
 # ------------------------------------------------------------------ class forms
 
